@@ -40,3 +40,196 @@ def join_texts(items, k):
     for i in range(0, k):
         out = out + text_of(items[i])
     return out
+
+
+# ---------------------------------------------------------------------------------------------- dates (C13)
+
+D1900 = datetime.datetime(1900, 1, 1)
+MARCH1_1900 = datetime.datetime(1900, 3, 1)
+US_PER_DAY = 86400000000
+
+
+def days_since_1900(d):
+    """ (fractional) days between 1900-01-01 00:00 and d """
+    return (date_us(d) - date_us(D1900)) / US_PER_DAY
+
+
+def serial(d):
+    """ C13: Excel 1900 date system.  0 at 1900-01-01 00:00; days since 1900-01-01 plus 1 before 1 March 1900 (Excel counts a
+        29 February 1900 that never existed); from 1 March 1900 00:00 on, days since 1899-12-30 (= days since 1900-01-01 + 2) """
+    if date_us(d) == date_us(D1900):
+        return 0
+    if date_us(d) < date_us(MARCH1_1900):
+        return days_since_1900(d) + 1
+    return days_since_1900(d) + 2
+
+
+def date_of_serial(n):
+    """ inverse direction used by parse_date: n is a non-negative number """
+    if n < 1:
+        return D1900
+    if n <= 60:
+        return date_from_us(date_us(D1900) + (n - 1) * US_PER_DAY)
+    return date_from_us(date_us(D1900) + (n - 2) * US_PER_DAY)
+
+
+def text_number(v):
+    """ what to_number makes of a value: numeric text becomes its number, everything else is unchanged """
+    if is_str(v):
+        if text_is_int(v):
+            return int_of_text(v)
+        if text_is_float(v):
+            return float_of_text(v)
+    return v
+
+
+def dateutil_parse_or_value(text):
+    """ parse_date on non-numeric text: dateutil's result, #VALUE! when dateutil raises ValueError (OverflowError escapes) """
+    try:
+        return dateutil_parse(text)
+    except ValueError:
+        return VALUE
+
+
+# ---------------------------------------------------------------------------------------------- comparisons (C07)
+
+def cmp_rank(v):
+    """ non-blank scalar: numbers and dates 0 < text 1 < logicals 2 """
+    if is_bool(v):
+        return 2
+    if is_str(v):
+        return 1
+    return 0
+
+
+def cmp_num(v):
+    """ numeric key of a rank-0 value: dates by serial """
+    if is_date(v):
+        return serial(v)
+    return v
+
+
+def blank_as(other):
+    """ a blank compares as 0, as empty text or as FALSE according to the other operand """
+    if is_bool(other):
+        return False
+    if is_str(other):
+        return ''
+    return 0
+
+
+def xl_lt(a, b):
+    if a is None and b is None:
+        return False
+    if a is None:
+        a = blank_as(b)
+    if b is None:
+        b = blank_as(a)
+    ra = cmp_rank(a)
+    rb = cmp_rank(b)
+    if ra != rb:
+        return ra < rb
+    if ra == 0:
+        return cmp_num(a) < cmp_num(b)
+    if ra == 1:
+        return a < b
+    return (not a) and b
+
+
+def xl_eq(a, b):
+    if a is None and b is None:
+        return True
+    if a is None:
+        a = blank_as(b)
+    if b is None:
+        b = blank_as(a)
+    ra = cmp_rank(a)
+    rb = cmp_rank(b)
+    if ra != rb:
+        return False
+    if ra == 0:
+        return cmp_num(a) == cmp_num(b)
+    if ra == 1:
+        return same(a, b)
+    return same(a, b)
+
+
+def xl_gt(a, b):
+    return xl_lt(b, a)
+
+
+def date_ok(v):
+    """ dates the statement quantifies over: from 1 January 1900 on (non-dates are unconstrained) """
+    if is_date(v):
+        return date_us(v) >= date_us(D1900)
+    return True
+
+
+# ---------------------------------------------------------------------------------------------- arithmetic (C06)
+
+def classify(value):
+    """ C06 operand classes: (acting value, class) with class in number/date/text/blank/error """
+    if is_numb(value):
+        return (value, 'number')
+    if is_date(value):
+        return (value, 'date')
+    if is_str(value):
+        n = text_number(value)
+        if is_numb(n):
+            return (n, 'number')
+        d = dateutil_parse_or_value(n)
+        if is_err(d):
+            return (value, 'text')
+        return (d, 'date')
+    if value is None:
+        return (None, 'blank')
+    if is_err(value):
+        return (value, 'error')
+    return (VALUE, 'error')
+
+
+def numeric_value(v, cls):
+    """ numbers as themselves, TRUE/FALSE as 1/0 (Python bool arithmetic), blank as 0, dates as their serial """
+    if cls == 'date':
+        return serial(v)
+    if cls == 'blank':
+        return 0
+    return v
+
+
+def date_result(op, lcls, rcls):
+    """ the result is a date exactly when one operand is a date and the other a number or blank,
+        except for a division involving a blank (independent table, see DESIGN C06) """
+    one_date = (lcls == 'date') != (rcls == 'date')
+    if not one_date:
+        return False
+    if op == '/' and (lcls == 'blank' or rcls == 'blank'):
+        return False
+    return True
+
+
+def arith(op, x, y):
+    if op == '+':
+        return x + y
+    if op == '-':
+        return x - y
+    if op == '*':
+        return x * y
+    return x / y
+
+
+def as_date_result(n):
+    """ a numeric result returned as a date: #NUM! if it would precede 1900 """
+    if n < 0:
+        return NUM
+    return date_of_serial(n)
+
+
+def amp(a, b):
+    """ C06/C08: & joins its operands as text - text verbatim, integers as their digits, blank as nothing; an error operand
+        is the result (the left one when both are).  Other values (floats, logicals, dates) read as Python's str(). """
+    if is_err(a):
+        return a
+    if is_err(b):
+        return b
+    return text_of(a) + text_of(b)
